@@ -12,6 +12,7 @@
 """
 from vlib import facts, cfg, cond, table as tbl, bits
 from vlib.facts import strip
+from rules import _tags
 
 PID = "C03"
 ETH_LOOKUP = "Tins::Internals::pdu_flag_to_ether_type"
@@ -36,6 +37,10 @@ def run(db, rep, tier):
     rep.rule("R7-ext-minimum", "ICMP / ICMPv6 extension parsing starts the extension structure at least 128 octets into the payload - "
                                "where the serialiser, which pads the quoted datagram to 128, puts it", 1)
     r7(db, rep)
+    rep.rule("R8-selector-bytes", "a length member that a selector's setter fixes per enumerator (LLC: control_field_length_ per Format) and "
+                                  "that header_size() counts equals the selector-dependent bytes write_serialization writes for that "
+                                  "enumerator (both sides executed per enumerator; a missing arm writes 0)", 3)
+    r8(db, rep)
     rep.rule("R1-size-balance", "(C02.R1, re-run here because a serialiser that writes more than its size function counts overwrites the next "
                                 "layer: the serialization no longer parses back to the same packet)", 90)
     from rules import c02
@@ -68,59 +73,75 @@ def r1(db, rep):
             rep.analysis_broken("cannot read the 'unknown' value of %s" % q)
             return
     n_sites = 0
+    is_lookup = _tags.make_is_lookup(db)
     for fid, f in sorted(db.functions.items()):
         if not f.get("body") or not (f.get("rec") or "").startswith("Tins::"):
             continue
         nm = f["qual"].split("::")[-1]
         if nm != "write_serialization":
             continue
-        calls = [n for n in facts.fn_nodes(f) if n["k"] == "CallExpr" and n.get("cqual") in unknown]
+        calls = [n for n in facts.fn_nodes(f) if is_lookup(n)]
         if not calls:
             continue
         g = cfg.FnCFG(f)
         idx, par = facts.index_fn(f)
         short = f["qual"].replace("Tins::", "")
-        # variables holding a lookup result
-        holders = {}
-        for c in calls:
-            p = par.get(c["id"])
-            while p is not None and p["k"] in ("ImplicitCastExpr", "ParenExpr", "CStyleCastExpr", "CXXStaticCastExpr", "CXXFunctionalCastExpr"):
-                p = par.get(p["id"])
-            if p is not None and p["k"] == "VarDecl":
-                holders[p["var"]] = c["cqual"]
-            elif p is not None and p["k"] == "BinaryOperator" and p.get("op") == "=" and strip(p["c"][0])["k"] == "DeclRefExpr":
-                holders[strip(p["c"][0])["var"]] = c["cqual"]
-            else:
-                holders[("direct", c["id"])] = c["cqual"]
-        # stores: setter calls / assignments to a header member whose value mentions a holder or the call itself
+        # variables holding a lookup result (a helper that returns the lookup's result is the lookup: rules/_tags.py)
+        holders = _tags.holders_of(f, is_lookup)
+        # stores: setter calls / assignments to a header member whose value mentions a holder or the call itself, and
+        # (so that `x = ok ? flag : old; set(x)` is the same store) assignments to a local that reaches such a store.
+        # The obligation sits on each READ of the lookup result inside such a value: it must be guarded, where it is
+        # read (arms of ?: included), by result != unknown.
+        def sinks():
+            for n in facts.fn_nodes(f):
+                if n["k"] == "CXXMemberCallExpr" and len(n["c"]) == 2 and strip_this(n):
+                    fs = db.functions.get(n.get("callee"))
+                    if fs is not None and is_setter(fs):
+                        yield n, n["c"][1], None
+                if n["k"] == "BinaryOperator" and n.get("op") == "=":
+                    lhs = strip(n["c"][0])
+                    if lhs["k"] == "MemberExpr" and lhs.get("isfield"):
+                        yield n, n["c"][1], None
+                    elif lhs["k"] == "DeclRefExpr" and lhs.get("var") and not lhs.get("parm") and lhs.get("var") not in holders:
+                        yield n, n["c"][1], lhs["var"]
+                if n["k"] == "VarDecl" and n.get("c") and n.get("var") not in holders:
+                    yield n, n["c"][0], n["var"]
+        all_sinks = list(sinks())
+        # locals that reach a header store
+        reach = set()
+        changed = True
+        while changed:
+            changed = False
+            for n, val, tgt in all_sinks:
+                if tgt is None or tgt in reach:
+                    continue
+                for n2, val2, tgt2 in all_sinks:
+                    if (tgt2 is None or tgt2 in reach) and any(x["k"] == "DeclRefExpr" and x.get("var") == tgt for x in facts.walk(val2)):
+                        reach.add(tgt)
+                        changed = True
+                        break
         stores = []
-        for n in facts.fn_nodes(f):
-            val = None
-            if n["k"] == "CXXMemberCallExpr" and len(n["c"]) == 2 and strip_this(n):
-                fs = db.functions.get(n.get("callee"))
-                if fs is not None and is_setter(fs):
-                    val = n["c"][1]
-            if n["k"] == "BinaryOperator" and n.get("op") == "=":
-                lhs = strip(n["c"][0])
-                if lhs["k"] == "MemberExpr" and lhs.get("isfield"):
-                    val = n["c"][1]
-            if val is None:
+        for n, val, tgt in all_sinks:
+            if tgt is not None and tgt not in reach:
                 continue
-            src = None
             for x in facts.walk(val):
                 if x["k"] == "DeclRefExpr" and x.get("var") in holders:
-                    src = (x["var"], holders[x["var"]])
-                if x["k"] == "CallExpr" and x.get("cqual") in unknown:
-                    src = (None, x["cqual"])
-            if src is not None:
-                stores.append((n, src))
-        for n, (var, q) in stores:
+                    # a read that is only compared is not a flow
+                    pp = par.get(x["id"])
+                    while pp is not None and pp["k"] in ("ImplicitCastExpr", "ParenExpr"):
+                        pp = par.get(pp["id"])
+                    if pp is not None and pp["k"] == "BinaryOperator" and pp.get("op") in ("==", "!=", "<", ">", "<=", ">="):
+                        continue
+                    stores.append((n, x, (x["var"], holders[x["var"]])))
+                elif is_lookup(x) and holders.get(("direct", x["id"])):
+                    stores.append((n, x, (None, is_lookup(x))))
+        for n, rd, (var, q) in stores:
             n_sites += 1
             key = "%s:store#%d" % (short, n_sites)
             unk = unknown[q]
             good = False
             if var is not None:
-                for op, l, r in cond.guards_facts(g, g.pos(n)):
+                for op, l, r in cond.guards_facts(g, g.pos(rd)) + cond.guards_facts(g, g.pos(n)):
                     if r is None or op != "!=":
                         continue
                     for a, b in ((l, r), (r, l)):
@@ -247,6 +268,51 @@ def r2(db, rep):
 SER_NAMES = ("write_serialization", "header_size", "trailer_size", "write_ext_header", "write_fixed_parameters", "write_body", "write_option", "write_header")
 
 
+def dispatches(f):
+    """[(statement, scrutinee expression, arms or None)]: default-less switches, and if / else-if chains without a final
+    else that compare one expression with constants and write to the stream in every arm (the same dispatch, spelled
+    with ifs).  Named single-assignment locals are read through."""
+    out = []
+    for sw in facts.fn_nodes(f):
+        if sw["k"] == "SwitchStmt" and not tbl.has_default(sw):
+            real = [x for x in sw["c"] if x is not None]
+            out.append((sw, facts.inline_locals(f, real[0]), None))
+    idx, par = facts.index_fn(f)
+    for top in facts.fn_nodes(f):
+        if top["k"] != "IfStmt":
+            continue
+        p = par.get(top["id"])
+        if p is not None and p["k"] == "IfStmt" and [x for x in p["c"] if x is not None][-1] is top and len([x for x in p["c"] if x is not None]) == 3:
+            continue        # an else-if: part of its parent's chain
+        arms, scrut, cur, ok = set(), None, top, True
+        while cur is not None:
+            real = [x for x in cur["c"] if x is not None]
+            c0 = facts.strip_all(real[0])
+            if not (c0["k"] == "BinaryOperator" and c0.get("op") == "==" and facts.cval(c0["c"][1]) is not None):
+                ok = False
+                break
+            sc = facts.inline_locals(f, c0["c"][0])
+            if scrut is None:
+                scrut = sc
+            elif facts.expr_str(facts.strip_all(sc)) != facts.expr_str(facts.strip_all(scrut)):
+                ok = False
+                break
+            if not any(x["k"] == "CXXMemberCallExpr" and x.get("cname") in ("write", "write_be", "write_le", "fill") for x in facts.walk(real[1])):
+                ok = False
+                break
+            arms.add(int(facts.cval(c0["c"][1])))
+            if len(real) == 2:
+                cur = None
+            elif real[2]["k"] == "IfStmt":
+                cur = real[2]
+            else:
+                ok = False      # final else: every value has an arm
+                break
+        if ok and len(arms) >= 2:
+            out.append((top, scrut, arms))
+    return out
+
+
 def r4(db, rep):
     bits.DB[0] = db
     n = 0
@@ -254,11 +320,7 @@ def r4(db, rep):
         rec = f.get("rec") or ""
         if not rec.startswith("Tins::") or not f.get("body") or f["qual"].split("::")[-1] not in SER_NAMES:
             continue
-        for sw in [x for x in facts.fn_nodes(f) if x["k"] == "SwitchStmt"]:
-            if tbl.has_default(sw):
-                continue
-            real = [x for x in sw["c"] if x is not None]
-            scrut = real[0]
+        for sw, scrut, chain_arms in dispatches(f):
             st = facts.ty(f, facts.strip_all(scrut)) or {}
             s0 = facts.strip_all(scrut)
             # scrutinee through a trivial getter
@@ -275,8 +337,11 @@ def r4(db, rep):
                 continue
             n += 1
             key = "%s:switch(%s)" % (f["qual"].replace("Tins::", ""), facts.expr_str(s0)[:30])
-            table, default, _ = tbl.switch_table(f, sw)
-            arms = set(table)
+            if chain_arms is None:
+                table, default, _ = tbl.switch_table(f, sw)
+                arms = set(table)
+            else:
+                arms = chain_arms
             # values the enum-typed state can take from the wire: casts to this enum of masked expressions in the class
             wire = set()
             where = None
@@ -340,6 +405,90 @@ def r5(db, rep):
             rep.ok("R5-rfc4884-types", key, facts.loc(f), "accept set %s within %s (256 values evaluated)" % (sorted(acc), sorted(allowed)))
 
 
+def r8(db, rep):
+    """selector-dependent bytes: a class whose setter S(E v) stores v in an enum member M and a constant per value in a
+    length member L that header_size() counts must, in write_serialization, write exactly L(v) selector-dependent bytes for
+    every enumerator v.  Both sides are EXECUTED per enumerator (ieval.trace), so a switch, an if-chain or a table lookup
+    are the same thing to the rule; a missing arm writes 0 bytes."""
+    from vlib import ieval
+    n = 0
+    for rn, r in sorted(db.records.items()):
+        if not rn.startswith("Tins::") or "Tins::PDU" not in db.all_bases(rn):
+            continue
+        ws = [f for f in db.functions.values() if f.get("rec") == rn and f["qual"].endswith("::write_serialization") and f.get("body")]
+        hs = [f for f in db.functions.values() if f.get("rec") == rn and f["qual"].endswith("::header_size") and f.get("body")]
+        if not ws or not hs:
+            continue
+        ws, hs = ws[0], hs[0]
+        hs_fields = set(x.get("member") for x in facts.fn_nodes(hs) if x["k"] == "MemberExpr" and x.get("isfield"))
+        for S in [f for f in db.functions.values() if f.get("rec") == rn and f.get("body") and len(f.get("params", ())) == 1]:
+            pt = facts.tyi(S, S["params"][0].get("t")) or {}
+            if pt.get("k") != "enum" or pt.get("name") not in db.enums:
+                continue
+            pv = S["params"][0]["var"]
+            M, Ls = None, set()
+            for x in facts.fn_nodes(S):
+                if x["k"] == "BinaryOperator" and x.get("op") == "=":
+                    l = strip(x["c"][0])
+                    if l["k"] == "MemberExpr" and l.get("isfield") and strip(l["c"][0])["k"] == "CXXThisExpr":
+                        if facts.strip_all(x["c"][1]).get("var") == pv:
+                            M = l.get("member")
+                        elif facts.cval(x["c"][1]) is not None and l.get("member") in hs_fields:
+                            Ls.add(l.get("member"))
+            if M is None or not Ls:
+                continue
+            getters = set(g["id"] for g in db.functions.values() if g.get("rec") == rn and g.get("body") and not g.get("params") and
+                          any(x["k"] == "ReturnStmt" and x.get("c") and facts.strip_all(x["c"][0]).get("member") == M for x in facts.fn_nodes(g)))
+
+            def is_sel(x):
+                return (x["k"] == "CXXMemberCallExpr" and x.get("callee") in getters) or \
+                       (x["k"] == "MemberExpr" and x.get("isfield") and x.get("member") == M)
+            sa = facts.single_assign(ws)
+            alias = set(v for v, init in sa.items() if any(is_sel(y) for y in facts.walk(init)))
+            stmts = [st for st in ws["body"].get("c", []) if st is not None and
+                     any(is_sel(y) or (y["k"] == "DeclRefExpr" and y.get("var") in alias) or (y["k"] == "VarDecl" and y.get("var") in alias)
+                         for y in facts.walk(st))]
+            for L in sorted(Ls):
+                for en in db.enums[pt["name"]]["enumerators"]:
+                    n += 1
+                    V = en["v"]
+                    key = "%s:%s(%s)" % (rn.replace("Tins::", ""), L, en["name"])
+                    try:
+                        want = None
+                        for kind, node in ieval.trace(S, S["body"], {pv: V}):
+                            if kind == "assign" and node.get("op") == "=" and strip(node["c"][0]).get("member") == L and facts.cval(node["c"][1]) is not None:
+                                want = int(facts.cval(node["c"][1]))
+                        got = 0
+                        env = {"__termfn__": (lambda x, V=V: V if is_sel(x) else None)}
+                        for kind, node in ieval.trace(ws, {"k": "CompoundStmt", "id": -1, "c": stmts}, env):
+                            for y in facts.walk(node):
+                                if y["k"] == "CXXMemberCallExpr" and y.get("cname") in ("write", "write_be", "write_le") and len(y["c"]) == 2:
+                                    t = facts.ty(ws, facts.strip(y["c"][1])) or {}
+                                    while t.get("k") == "ref" and t.get("to"):
+                                        t = t["to"]
+                                    sz = t.get("size") or ((t.get("w") or 0) // 8)
+                                    if not sz:
+                                        raise ieval.Unknown("write of unknown size")
+                                    got += sz
+                                elif y["k"] == "CXXMemberCallExpr" and y.get("cname") in ("write", "fill") and len(y["c"]) > 2:
+                                    raise ieval.Unknown("variable-length write")
+                    except ieval.Unknown as ex:
+                        rep.undecided("R8-selector-bytes", key, facts.loc(ws), "not evaluable: %s" % ex)
+                        continue
+                    if want is None:
+                        rep.undecided("R8-selector-bytes", key, facts.loc(S), "%s(%s) assigns no constant to %s" % (S["name"], en["name"], L))
+                    elif got == want:
+                        rep.ok("R8-selector-bytes", key, facts.loc(ws), "%s = %d, %d selector-dependent byte(s) written" % (L, want, got))
+                    else:
+                        rep.violation("R8-selector-bytes", key, facts.loc(ws),
+                                      "for %s, %s(%s) sets %s = %d, which header_size() counts, but write_serialization writes %d "
+                                      "selector-dependent byte(s): the serialised frame %s" %
+                                      (en["name"], S["name"], en["name"], L, want, got,
+                                       "lacks its control field and the following bytes are uninitialised" if got < want else "overruns its region"))
+    if n < 3:
+        rep.analysis_broken("only %d selector-dependent length instances found (LLC's control field expected)" % n)
+
+
 def r6(db, rep):
     from vlib import formula
     fs = [f for f in db.fns_named("Tins::RadioTap::trailer_size") if f.get("body")]
@@ -389,8 +538,40 @@ def r7(db, rep):
         return
     f = fs[0]
     g = cfg.FnCFG(f)
-    stores = [x for x in facts.fn_nodes(f) if x["k"] == "BinaryOperator" and x.get("op") == "=" and
-              facts.strip_all(x["c"][0]).get("name") == "extensions_ptr"]
+    # anchor: the pointer handed to ICMPExtensionsStructure::validate_extensions.  Every definition that can reach it is
+    # followed back through locals (declaration initialisers and assignments) to the leaves `stream.pointer() + OFF`
+    # and, when OFF is itself a local, to each value stored to that local: one obligation per leaf.
+    val = [x for x in facts.fn_nodes(f) if x["k"] == "CallExpr" and x.get("cname") == "validate_extensions" and len(x["c"]) >= 3]
+    if not val:
+        rep.analysis_broken("try_parse_icmp_extensions: no call of validate_extensions found")
+        return
+
+    def defs(var):
+        out = []
+        for x in facts.fn_nodes(f):
+            if x["k"] == "VarDecl" and x.get("var") == var and x.get("c"):
+                out.append((x, x["c"][0]))
+            if x["k"] == "BinaryOperator" and x.get("op") == "=" and facts.strip_all(x["c"][0]).get("var") == var:
+                out.append((x, x["c"][1]))
+        return out
+
+    def leaves(e, at, depth=0):
+        """[(node at which the value is fixed, offset expression)]"""
+        e0 = facts.strip_all(e)
+        if depth > 4:
+            return [(at, None)]
+        if e0["k"] == "DeclRefExpr" and e0.get("var") and not e0.get("parm") and not e0.get("glob") and defs(e0["var"]):
+            out = []
+            for site, v in defs(e0["var"]):
+                out += leaves(v, site, depth + 1)
+            return out
+        if e0["k"] == "BinaryOperator" and e0.get("op") == "+" and (facts.ty(f, e0) or {}).get("k") == "ptr":
+            for a_, b_ in ((e0["c"][0], e0["c"][1]), (e0["c"][1], e0["c"][0])):
+                if "pointer()" in facts.expr_str(a_):
+                    return leaves(b_, at, depth + 1)
+            return [(at, None)]
+        return [(at, e)]
+    stores = sorted(leaves(val[0]["c"][1], val[0]), key=lambda t: (t[0].get("l") or 0, t[0]["id"]))
     if not stores:
         rep.analysis_broken("try_parse_icmp_extensions: no store to extensions_ptr found")
         return
@@ -411,16 +592,10 @@ def r7(db, rep):
             if gl is not None and gl.get("const") and (gl.get("init") or {}).get("v") is not None:
                 return gl["init"]["v"]
         return None
-    for i, x in enumerate(stores):
+    for i, (x, off) in enumerate(stores):
         key = "try_parse_icmp_extensions:extensions_ptr#%d" % (i + 1)
-        rhs = facts.strip_all(facts.inline_locals(f, x["c"][1]))
-        off = None
-        if rhs["k"] == "BinaryOperator" and rhs.get("op") == "+":
-            for a, b in ((rhs["c"][0], rhs["c"][1]), (rhs["c"][1], rhs["c"][0])):
-                if "pointer()" in facts.expr_str(a):
-                    off = b
         if off is None:
-            rep.analysis_broken("%s: offset expression `%s` not recognised" % (key, facts.expr_str(rhs)))
+            rep.analysis_broken("%s: pointer expression at line %s not recognised" % (key, x.get("l")))
             continue
         ov = cv(off)
         ok = ov is not None and ov >= mn
